@@ -29,11 +29,18 @@ def lim_txt(l):
 
 
 def op_txt(op, members=b'', limit=NPOS, s=b''):
-    return '%s %s %s %s' % (op, hx(members), lim_txt(limit), hx(s))
+    return (op, bytes(members), limit, bytes(s))
 
 
 def tok_line(mode, buf, ops):
-    return 'tok %d %s %d %s' % (mode, hx(buf), len(ops), ' '.join(ops))
+    """tok <mode> <hexbuf> <nsets> <hexset>* <nops> {<op> <set index> <limit> <hexstr>}*"""
+    table = []
+    words = []
+    for op, members, limit, s in ops:
+        if members not in table:
+            table.append(members)
+        words.append('%s %d %s %s' % (op, table.index(members), lim_txt(limit), hx(s)))
+    return 'tok %d %s %d %s %d %s' % (mode, hx(buf), len(table), ' '.join(hx(m) for m in table), len(ops), ' '.join(words))
 
 
 def strings(alpha, maxlen):
@@ -221,7 +228,10 @@ def explode(case):
         base = 0 if first else case['outs'][n - 1]['parsed']
         o2 = dict(out)
         o2['parsed'] = out['parsed'] - base
-        res.append({'fn': 'tok', 'mode': case['mode'], 'fresh': False, 'buf': prev, 'tok0': case['tok0'], 'ops': [o], 'outs': [o2], 'ub': case['ub']})
+        o1 = dict(o)
+        o1['si'] = 1
+        res.append({'fn': 'tok', 'mode': case['mode'], 'fresh': False, 'buf': prev, 'tok0': case['tok0'], 'sets': [case['sets'][o['si'] - 1]],
+                    'ops': [o1], 'outs': [o2], 'ub': case['ub']})
     return res
 
 
@@ -230,6 +240,7 @@ def show(c):
         return bytes(x).decode('latin-1')
     if c['fn'] == 'tok':
         o, r = c['ops'][0], c['outs'][0]
+        o = dict(o, set=c['sets'][o['si'] - 1])
         return 'Tokenizer(%r).%s(set=%r, limit=%s, str=%r) -> ret=%s token=%r remaining=%r parsed=%s' % (
             b(c['buf']), o['op'], b(o['set']) if len(o['set']) <= 40 else '<%d members>' % len(o['set']), o['limit'], b(o['str']),
             r['ret'], b(r['tok']), b(r['rem']), r['parsed'])
